@@ -8,8 +8,8 @@
 (*   every reference, header counts, both kinds of modified flags, versions; a failed call = the state before it), and      *)
 (*   saved-root lengths = SavedLengths(state).  Since TLC proved Integrity and PostOK for every history of that machine,   *)
 (*   equality with it is what carries the invariants to the real object.                                                   *)
-(* When the observation is not the relied-upon successor but exactly the successor under a named deviation of AsCoded,      *)
-(* the event is BAD "dev:<Name>" (a known finding as long as /repo has it) and the model follows the code, so that the     *)
+(* When the observation is not the relied-upon successor but exactly the successor under a subset of the named deviations  *)
+(* AsCoded (the smallest such subset; named by its first member in DevOrder), the event is BAD "dev:<Name>" (a known finding as long as /repo has it) and the model follows the code, so that the     *)
 (* rest of the history is still judged call by call.  Anything else is BAD "<what differs>" and the trace is abandoned.    *)
 EXTENDS WmoEditor, Json, IOUtils, TLC, TLCExt, SequencesExt
 
@@ -18,21 +18,23 @@ GM == 24
 VARIABLES tl, vtst, vtdead
 Proj(s) == [s EXCEPT !.gmod = PadTo(@, GM, FALSE)]
 NoSave == <<-1, -1, -1, -1, -1>>
-OpOf(e) == [op |-> e.op, id |-> e.id, a |-> e.a, b |-> e.b, c |-> e.c]
+OpOf(e) == [op |-> e.op, id |-> e.id, a |-> e.a, b |-> e.b, c |-> e.c, d |-> e.d]
 Back(e, r) == IF e.op = "save_root" /\ r.res = "ok" THEN SavedLengths(r.st) ELSE NoSave
 Match(e, r) == /\ r.res = e.res
                /\ (r.res = "ok" => r.ret = e.ret)
                /\ e.back = Back(e, r)
                /\ Proj(r.st) = e.st
-Fields == <<"tex", "mat", "gi", "grp", "gmod", "dd", "ds", "hdr", "rmod", "ver", "orig">>
-Differs(e, r) ==
-  IF r.res # e.res THEN "result:" \o e.res
-  ELSE IF r.res = "ok" /\ r.ret # e.ret THEN "returned-index"
-  ELSE IF e.back # Back(e, r) THEN "saved-root"
-  ELSE LET p == Proj(r.st)
-           bad == SelectSeq(Fields, LAMBDA f : p[f] # e.st[f])
-       IN IF bad = <<>> THEN "?" ELSE "state:" \o bad[1]
-DevOrder == <<"ErrUnderflow", "DanglingZero", "CreateMisplaced", "StaleGroupIndex", "NamesCountDrift", "VertexNoFlag">>
+Fields == <<"tex", "mat", "gi", "grp", "gmod", "dd", "ds", "pr", "hdr", "rmod", "ver", "orig">>
+DiffFields(e, r) == LET p == Proj(r.st) IN SelectSeq(Fields, LAMBDA f : p[f] # e.st[f])
+\* what differs, relative to the closer of the relied-upon successor r and the as-coded successor rc
+Differs(e, r, rc) ==
+  IF r.res # e.res /\ rc.res # e.res THEN "result:" \o e.res
+  ELSE IF e.res = "ok" /\ r.ret # e.ret /\ rc.ret # e.ret THEN "returned-index"
+  ELSE IF e.back # Back(e, r) /\ e.back # Back(e, rc) THEN "saved-root"
+  ELSE LET di == DiffFields(e, r)  dc == DiffFields(e, rc)
+           bad == IF dc # <<>> /\ Len(dc) < Len(di) THEN dc ELSE di
+       IN IF bad = <<>> THEN "result-or-state" ELSE "state:" \o bad[1]
+DevOrder == <<"ErrUnderflow", "DanglingZero", "CreateMisplaced", "StaleGroupIndex", "NamesCountDrift", "VertexNoFlag", "AttrsNotParallel">>
 T_Reset ==
   /\ Rec[tl].ev = "Reset"
   /\ LET s0 == InitState(Rec[tl].init) IN
@@ -43,15 +45,15 @@ T_Call ==
   /\ LET e == Rec[tl]
          o == OpOf(e)
          ideal == Apply(vtst, o, {})
-         coded == Apply(vtst, o, AsCoded)
-         single == SelectSeq(DevOrder, LAMBDA d : Match(e, Apply(vtst, o, {d})))
+         expl == {D \in SUBSET AsCoded : D # {} /\ Match(e, Apply(vtst, o, D))}       \* the deviations that explain the observation
+         least == CHOOSE D \in expl : \A E \in expl : Cardinality(D) <= Cardinality(E)
      IN IF vtdead THEN UNCHANGED <<vtst, vtdead>>
         ELSE IF e.op \notin OpNames THEN PrintT(<<"BAD", tl, "unknown-op">>) /\ vtdead' = TRUE /\ UNCHANGED vtst
         ELSE IF Match(e, ideal) THEN vtst' = ideal.st /\ UNCHANGED vtdead
-        ELSE IF Match(e, coded)
-             THEN /\ PrintT(<<"BAD", tl, "dev:" \o (IF single = <<>> THEN "combined" ELSE single[1])>>)
-                  /\ vtst' = coded.st /\ UNCHANGED vtdead
-        ELSE PrintT(<<"BAD", tl, Differs(e, ideal)>>) /\ vtdead' = TRUE /\ UNCHANGED vtst
+        ELSE IF expl # {}
+             THEN /\ PrintT(<<"BAD", tl, "dev:" \o SelectSeq(DevOrder, LAMBDA d : d \in least)[1]>>)
+                  /\ vtst' = Apply(vtst, o, least).st /\ UNCHANGED vtdead
+        ELSE PrintT(<<"BAD", tl, Differs(e, ideal, Apply(vtst, o, AsCoded))>>) /\ vtdead' = TRUE /\ UNCHANGED vtst
 Init == tl = 1 /\ vtst = InitState(0) /\ vtdead = FALSE
 Next == /\ tl <= Len(Rec) /\ tl' = tl + 1
         /\ (T_Reset \/ T_Call)
